@@ -333,6 +333,24 @@ pub fn erroneous_projects() -> Vec<Project> {
         }
         out.push(q);
     }
+    // name-resolution errors that only one file of a package has: imports are per file
+    for (which, b_src) in [
+        ("type-position", "package Util\n\nfn area(p: Lib::Point) -> int32 { p.x }\n"),
+        ("struct-literal", "package Util\n\nfn origin_x() -> int32 { let p = Lib::Point { x: 0 }; p.x }\n"),
+        ("impl-header", "package Util\n\nstruct W { k: int32 }\nimpl Lib::Show for W { fn show(self: W) -> string { \"w\" } }\n"),
+        ("let-annotation", "package Util\n\nfn count() -> int32 { let v: Vec[Lib::Point] = vec_new(); vec_len(v) }\n"),
+    ] {
+        out.push(Project {
+            name: format!("per-file-import-missing-{}", which),
+            files: vec![
+                ("main.gom".into(), "package Main\nimport Util\n\nfn main() { string_println(int32_to_string(Util::twice(2))) }\n".into()),
+                ("Util/a.gom".into(), "package Util\nimport Lib\n\nfn twice(k: int32) -> int32 { Lib::mk(k).x + k }\n".into()),
+                ("Util/b.gom".into(), b_src.into()),
+                ("Lib/lib.gom".into(), "package Lib\n\nstruct Point { x: int32 }\ntrait Show { fn show(Self) -> string; }\nfn mk(k: int32) -> Point { Point { x: k } }\n".into()),
+            ],
+            expected_stdout: None,
+        });
+    }
     out
 }
 
